@@ -2,7 +2,7 @@
    for bool, option, unit, prod, list, sumbool, sumor; N, Z, positive, nat stay extracted datatypes.
    No Extract Constant. *)
 From Coq Require Extraction ExtrOcamlBasic.
-From XetModel Require Import Gen.HashConsts Gen.ShardFacts Gen.XorbLayout Model.Chunker Model.Blake3 Model.Merkle Model.Shard Model.Xorb.
+From XetModel Require Import Gen.HashConsts Gen.ShardFacts Gen.XorbLayout Gen.DedupFacts Model.Chunker Model.Blake3 Model.Merkle Model.Shard Model.Xorb Model.Dedup.
 Extraction Language OCaml.
 Extraction "model.ml"
   Chunker.chunker_new Chunker.run_calls Chunker.spec_chunks Chunker.st0
@@ -17,4 +17,9 @@ Extraction "model.ml"
   ShardFacts.size_replace_aware ShardFacts.size_per_occurrence
   Xorb.bg4_split Xorb.bg4_regroup Xorb.xorb_serialize Xorb.xorb_deserialize Xorb.get_all_bytes Xorb.get_bytes_by_chunk_range
   Xorb.uncompressed_range_length Xorb.validate_cas_object Xorb.validate_stream Xorb.parse_boundaries_only Xorb.deserialize_chunks
-  Xorb.deserialize_chunk_async XorbLayout.boundaries_only_checked.
+  Xorb.deserialize_chunk_async XorbLayout.boundaries_only_checked
+  Dedup.fd0 Dedup.process_block Dedup.fd_finalize Dedup.agg_merge Dedup.agg_finalize Dedup.agg0 Dedup.session0 Dedup.register_completion
+  Dedup.register_mid_xorbs Dedup.session_finalize Dedup.m0 Dedup.resolve_file Dedup.raw_xorb
+  DedupFacts.dedup_booked_before_decision DedupFacts.aggregated_xorb_registers_cas DedupFacts.metrics_snapshot_after_join
+  DedupFacts.sha_of_empty_input_is_zero DedupFacts.MIN_N_CHUNKS_PER_RANGE_NUM DedupFacts.MIN_N_CHUNKS_PER_RANGE_DEN
+  DedupFacts.MIN_N_CHUNKS_PER_RANGE_HYSTERESIS_FACTOR_NUM DedupFacts.MIN_N_CHUNKS_PER_RANGE_HYSTERESIS_FACTOR_DEN.
